@@ -4,21 +4,29 @@ import json
 from . import core
 
 LEVEL_TEXT = (
-    "Lean 4 theorems over the model of the wire format (serde's derived data model as ciborium writes it): 128-bit "
-    "integers (CBOR integer or bignum, either sign) and byte strings (integer arrays) round-trip for every value, and "
-    "the version gate accepts exactly the current version. The model encoder is tied to encoding::to_bytes byte for "
-    "byte on every generated tree (random IR trees over every variant to depth 6, applied trees with UTxO sets, every "
-    "IR lowered from the examples and from generated programs); the structural round trip is decided per case on the "
-    "real crates (decode(encode t) canonically equal to t, same reported parameters and queries, re-encoding stable)."
+    "Lean 4 theorems over the model of the wire format (serde's derived data model as ciborium writes it) and a model "
+    "reader for it: for every well-shaped expression (node arities as the Rust types guarantee) reading back its "
+    "encoding yields exactly that expression, for every fuel at least its size (C11_expr_roundtrip); hence the "
+    "encoding is injective - two templates that differ anywhere differ on the wire (C11_expr_injective); the same for "
+    "whole transactions, field by field, including optional validity/signers and chain-specific directives "
+    "(C11_tx_roundtrip); 128-bit integers (CBOR integer or bignum, either sign), byte strings, text (UTF-8 bytes back "
+    "to the string), types, UTxO references, asset classes, UTxOs with optional datum/script round-trip for every "
+    "value; the version gate accepts exactly the current version. Tied to the code per generated tree: the model "
+    "encoder equals encoding::to_bytes byte for byte, the model reader (CBOR reader + untx) reads the REAL bytes back "
+    "to the tree that was encoded, every generated expression satisfies the shape hypothesis, and the real "
+    "decode(encode t) is canonically equal to t with the same reported parameters and queries and a stable re-encoding."
 )
 LEVEL_NOTE = (
-    "Partial: the derived struct/enum (de)serializers are serde+ciborium machinery, exercised on every case but not "
-    "modelled as a decoder; that arbitrary/truncated/deeply nested bytes never panic or abort the decoder is runtime "
-    "behaviour of ciborium, explored in child processes (so that an abort is observed, not fatal), not a theorem."
+    "Partial: the byte layer of the round trip (CBOR reader after CBOR writer) is executed per case on the real bytes, "
+    "not a theorem; the real serde-derived decoder is compared on encoder outputs only; that arbitrary, truncated or "
+    "deeply nested bytes never panic or abort the real decoder is runtime behaviour of ciborium, explored in child "
+    "processes (so that an abort is observed, not fatal)."
 )
 PROP = "C11"
-TARGETS = ["Tx3Proofs.C11"]
-THEOREMS = ["Tx3.Cbor.beNat_natToBytes", "Tx3.Wire.C11_int128_roundtrip", "Tx3.Wire.C11_bytes_roundtrip", "Tx3.Wire.C11_version_gate"]
+TARGETS = ["Tx3Proofs.C11", "Tx3Proofs.C11Roundtrip"]
+THEOREMS = ["Tx3.Cbor.beNat_natToBytes", "Tx3.Wire.C11_int128_roundtrip", "Tx3.Wire.C11_bytes_roundtrip", "Tx3.Wire.C11_version_gate",
+            "Tx3.Wire.strOf_txtBytes", "Tx3.Wire.txtBytes_inj", "Tx3.Wire.C11_expr_roundtrip", "Tx3.Wire.C11_expr_injective",
+            "Tx3.Wire.C11_tx_roundtrip"]
 RULE = (
     "cases = IR values: every transaction lowered from /repo/examples/*.tx3 and from 30 generated programs; random IR "
     "trees (every expression and block variant, depth 1..6, parameters/inputs/fees/compiler ops, boundary integers, a "
